@@ -2,6 +2,9 @@ package main
 
 import (
 	"fmt"
+	"go/types"
+	"os"
+	"sort"
 	"strings"
 	"sync"
 )
@@ -44,32 +47,138 @@ func runAxioms() int {
 	return 0
 }
 
-// verifyLemma proves a closed lemma of the contract file (no program state).
+// verifyLemma proves a lemma of the contract file (no program state). The structured
+// form has typed parameters (free constants), split cases (parameters fixed to numerals,
+// partially evaluated), assumptions and one obligation per `show` conjunct.
 func verifyLemma(p *Program, l *Lemma, timeoutS int) *FuncResult {
 	res := &FuncResult{Name: "lemma " + l.Name, Cases: 1}
-	e := newEnc(p, nil, nil)
-	var goal Term
-	func() {
-		defer func() {
-			if r := recover(); r != nil {
-				if ee, ok := r.(evalError); ok {
-					res.Err = "contract error in lemma " + l.Name + ": " + ee.msg
+	cases := splitCases(l.Splits)
+	if len(l.Splits) > 0 {
+		cases = cases[:len(cases)-1] // parameters range over the split values only: no remainder case
+	}
+	res.Cases = len(cases)
+	var mu sync.Mutex
+	var wg sync.WaitGroup
+	sem := make(chan struct{}, 24)
+	for _, cs := range cases {
+		cs := cs
+		if f := os.Getenv("GVC_CASE"); f != "" && !strings.Contains(cs.label, f) {
+			continue
+		}
+		wg.Add(1)
+		go func() {
+			defer wg.Done()
+			sem <- struct{}{}
+			defer func() { <-sem }()
+			e := newEnc(p, nil, nil)
+			type goalT struct {
+				name string
+				t    Term
+			}
+			var goals []goalT
+			var errMsg string
+			func() {
+				defer func() {
+					if r := recover(); r != nil {
+						if ee, ok := r.(evalError); ok {
+							errMsg = "contract error in lemma " + l.Name + ": " + ee.msg
+							return
+						}
+						panic(r)
+					}
+				}()
+				st := &State{heap: map[string]Term{}, alloc: Term{"alloc@0", sInt}}
+				e.heapInits["$alloc"] = st.alloc
+				e.init = st
+				vars := map[string]CVal{}
+				for _, pa := range l.Params {
+					var cv CVal
+					switch {
+					case strings.HasPrefix(pa.Type, "[]"):
+						et := p.typeByText(pa.Type[2:])
+						if et == nil {
+							cfail("lemma parameter %s: unknown element type", pa.Name)
+						}
+						srt := arrSort(e.reg.sortOf(et))
+						cv = CVal{T: e.havoc("L_"+pa.Name, srt), GT: types.NewArray(et, 0)}
+					case pa.Type == "int":
+						cv = CVal{T: e.havoc("L_"+pa.Name, sInt)}
+					case pa.Type == "bool":
+						cv = CVal{T: e.havoc("L_"+pa.Name, sBool)}
+					default:
+						t := p.typeByText(pa.Type)
+						if t == nil {
+							cfail("lemma parameter %s: unknown type %s", pa.Name, pa.Type)
+						}
+						cv = CVal{T: e.havoc("L_"+pa.Name, e.reg.sortOf(t)), GT: t}
+					}
+					vars[pa.Name] = cv
+				}
+				// split parameters are fixed to numerals
+				for i, sp := range l.Splits {
+					id, ok := sp.E.(*EIdent)
+					if !ok {
+						cfail("lemma split: parameter name expected")
+					}
+					vars[id.Name] = CVal{T: tInt(cs.vals[i])}
+				}
+				c := &Ctx{e: e, st: st, old: st, vars: vars}
+				if l.E != nil {
+					goals = append(goals, goalT{"lemma/" + l.Name + "[" + l.Text + "]", c.evalBool(l.E)})
 					return
 				}
-				panic(r)
+				for _, a := range l.Assumes {
+					e.emit("(assert %s)", c.evalBool(a.E).S)
+				}
+				for k, sh := range l.Shows {
+					cj := p.conjuncts(sh.E, deepSplit)
+					for j, cx := range cj {
+						name := fmt.Sprintf("lemma/%s/show[#%d %s]", l.Name, k+1, sh.Text)
+						if len(cj) > 1 {
+							name = fmt.Sprintf("lemma/%s/show[#%d.%d %s]", l.Name, k+1, j+1, exprString(cx))
+						}
+						goals = append(goals, goalT{name, e.def("goal", c.evalBool(cx))})
+					}
+				}
+			}()
+			if errMsg != "" {
+				mu.Lock()
+				res.Err = errMsg
+				mu.Unlock()
+				return
 			}
+			prefix := e.script()
+			record := func(gs []goalT, r solveResult) {
+				mu.Lock()
+				for i, g := range gs {
+					res.Obls = append(res.Obls, &Obl{ID: i + 1, Name: g.name, Kind: "lemma", Tags: l.Tags, Func: "lemma " + l.Name, Result: r.Result, Solver: r.Solver, TimeS: r.TimeS / float64(len(gs)), Case: strings.TrimSpace(cs.label)})
+				}
+				mu.Unlock()
+			}
+			// all goals at once, then individually
+			var parts []string
+			for _, g := range goals {
+				parts = append(parts, g.t.S)
+			}
+			r := solveStaged(prefix+"(assert (not (and "+strings.Join(parts, " ")+" true)))\n(check-sat)\n", timeoutS)
+			if r.Result == "unsat" || len(goals) == 1 {
+				record(goals, r)
+				return
+			}
+			var wg2 sync.WaitGroup
+			for _, g := range goals {
+				g := g
+				wg2.Add(1)
+				go func() {
+					defer wg2.Done()
+					r := solveStaged(prefix+"(assert (not "+g.t.S+"))\n(check-sat)\n", timeoutS)
+					record([]goalT{g}, r)
+				}()
+			}
+			wg2.Wait()
 		}()
-		st := &State{heap: map[string]Term{}, alloc: Term{"alloc@0", sInt}}
-		e.heapInits["$alloc"] = st.alloc
-		e.init = st
-		c := &Ctx{e: e, st: st, old: st, vars: map[string]CVal{}}
-		goal = c.evalBool(l.E)
-	}()
-	if res.Err != "" {
-		return res
 	}
-	q := e.script() + "(assert (not " + goal.S + "))\n(check-sat)\n"
-	r := solveStaged(q, timeoutS)
-	res.Obls = append(res.Obls, &Obl{ID: 1, Name: "lemma/" + l.Name + "[" + l.Text + "]", Kind: "lemma", Tags: l.Tags, Func: "lemma " + l.Name, Result: r.Result, Solver: r.Solver, TimeS: r.TimeS})
+	wg.Wait()
+	sort.SliceStable(res.Obls, func(i, j int) bool { return res.Obls[i].Case+res.Obls[i].Name < res.Obls[j].Case+res.Obls[j].Name })
 	return res
 }
